@@ -28,6 +28,9 @@ type cprog struct {
 	Threads [][]Op
 	Suffix  []Op
 	Bound   int // -1: all interleavings (with visited-state pruning); else max preemptions
+	// Release: lock releases are scheduling points too (vsync.YieldAfterUnlock): whatever the tracker does
+	// between letting go of a lock and its next acquisition can be overtaken by the other threads
+	Release bool
 }
 
 // Cleanup ops inside programs use Cut=-1: the instant recorded after the
@@ -244,6 +247,21 @@ func concPrograms(thorough bool) []*cprog {
 		{Name: "P8 login;cleanup;login || LOGIN+EV || LOGIN+EV", Sess: ev3, Logins: l2, Bound: -1,
 			Threads: [][]Op{{L(0), CU, CR, L(1)}, {A(0, 0), A(0, 1)}, {A(1, 0), A(1, 1)}}, Suffix: probe2},
 	}
+	// the two-thread programs once more with releases as scheduling points (preemption-bounded: the space
+	// multiplies)
+	for _, p := range append([]*cprog{}, ps...) {
+		if len(p.Threads) != 2 {
+			continue
+		}
+		q := *p
+		q.Name = strings.Replace(p.Name, " ", "r ", 1) + " [release points]"
+		q.Release = true
+		q.Bound = 2
+		if thorough {
+			q.Bound = -1
+		}
+		ps = append(ps, &q)
+	}
 	if thorough {
 		return append(ps, big...)
 	}
@@ -274,7 +292,9 @@ func runConc(run *mc.Run) int {
 		for _, p := range concPrograms(true) {
 			if p.Name == rp.Program {
 				schedChoose = func(n int) int { return sched.Choose(n, "iter") }
+				vsync.YieldAfterUnlock = p.Release
 				x := sched.Replay(p.program(), rp.Choices)
+				vsync.YieldAfterUnlock = false
 				allowed, _ := p.sequentialOutcomes2()
 				fmt.Printf("outcome:\n%s", x.Outcome)
 				if _, ok := allowed[x.Outcome]; !ok {
@@ -300,6 +320,7 @@ func runConc(run *mc.Run) int {
 		allowed, nseq := p.sequentialOutcomes2()
 		schedChoose = func(n int) int { return sched.Choose(n, "iter") }
 		sp := p.program()
+		vsync.YieldAfterUnlock = p.Release
 		// determinism self-check: one schedule twice
 		a, b := sched.Replay(sp, nil), sched.Replay(sp, nil)
 		if a.Outcome != b.Outcome || fmt.Sprint(a.Choices) != fmt.Sprint(b.Choices) {
@@ -312,6 +333,7 @@ func runConc(run *mc.Run) int {
 		}
 		st := sched.Explore(sp, p.Bound, budget, func(x *sched.Exec) bool { return !run.Expired() })
 		schedChoose = nil
+		vsync.YieldAfterUnlock = false
 		if st.Aborted || run.Expired() {
 			cov.Exhaustive = false
 		}
